@@ -101,6 +101,16 @@ def wlc (m : Mode) (bs : List B) (n : Nat) : Option Nat × List B :=
     | .smoothTie => smooth bs (fun i => cs.contains i)
     | .randomTie => (cs[n % cs.length]?, bs)
 
+/-- `BalanceRR.Update(conf)`: the old list is walked in order; a backend found in the conf (`keep`: old position ->
+    configured weight) survives with `UpdateWeight` (weight = 100*c; current := 0 if c <= 0, otherwise untouched;
+    connNum and avail belong to the surviving BfeBackend), the others are released; backends only in the conf are
+    appended as new (weight = current = 100*c, no connection, available). -/
+def update (bs : List B) (keep : List (Nat × Int)) (new : List Int) : List B :=
+  ((enum bs).filterMap fun x =>
+      (keep.find? (·.1 == x.1)).map fun k =>
+        { x.2 with w := 100 * k.2, cur := if k.2 ≤ 0 then 0 else x.2.cur }) ++
+    new.map fun c => { w := 100 * c, cur := 100 * c, conn := 0, avail := true }
+
 /-! ### specification side (used by the driver as oracle, independent of the two-pass algorithm) -/
 
 /-- `a` has connections/weight ≤ `b`, cross-multiplied (both weights are > 0 when used) -/
